@@ -34,7 +34,7 @@ async function checkJob (job, resp, faults, rng) {
 module.exports = {
   id: 'C01',
   level: 'exploration',
-  rule: 'catalogue programs (placement x operation form; Latin-square slice in quick, full cross product in thorough) and random grammar-generated programs over an observable Proxy world, each rewritten by the real rewriter and executed (input vs output) in fresh V8 contexts, clean and with a WorldFault injected at sampled/all event indices, with identity hooks and with no _ddiast (prologue pass-throughs). distinct_nontrivial = distinct programs whose output was modified and whose clean run produced >= 3 world events.',
+  rule: 'catalogue programs (placement x operation form; Latin-square slice in quick, full cross product in thorough) and random grammar-generated programs over an observable Proxy world, each rewritten by the real rewriter and executed (input vs output) in fresh V8 contexts, clean and with a WorldFault injected at sampled/all event indices, with identity hooks and with no _ddiast (prologue pass-throughs). distinct_nontrivial = distinct programs whose output was modified and whose clean run produced >= 3 world events. Workload additions: the syntax zoo (49 programs x LF/CRLF/CR line endings), and operation splicing - zoo programs, every seventh catalogue program and every fifth random program also run with further enabled operations grafted onto randomly chosen sub-expressions in a value-preserving way ((x is a primitive ? OP(x) : 0, x)).',
   assumptions: [
     'V8 (node 20) is the reference semantics; native build of /repo/src stands in for the wasm build',
     'world limits: callee functions are ordinary functions (the .call lookup of re-dispatch is not observed); with-scope lookups and accessor-backed globals are not observed, so the deliberate re-read of plain identifier operands is invisible',
